@@ -869,6 +869,20 @@ def _judge_v2_state(st, evals, obs):
     return violations, flows, jumpish, unseen
 
 
+def _recompile_v2(flows, rails_config, obs):
+    """The same parsed flows (one RailsConfig object) compiled a SECOND time - what a second LLMRails / RuntimeV2_x built
+    from the same config object does. The second compilation must be closed as well."""
+    scratch = {}
+    try:
+        st2, evals2, _ = _init_v2(flows, rails_config)
+    except Exception as e:
+        obs["second_compilation_failed"] = obs.get("second_compilation_failed", 0) + 1
+        return [("second-compilation-raises:" + type(e).__name__, "*", str(e)[:200])]
+    v2, _f, _j, _u = _judge_v2_state(st2, evals2, scratch)
+    obs["second_compilations_scanned"] = obs.get("second_compilations_scanned", 0) + 1
+    return [(m + "@second-compilation", fid, d) for m, fid, d in v2]
+
+
 def _judge_v1_flows(flows, obs):
     violations = []
     jumpish = 0
@@ -963,6 +977,7 @@ def _run_shipped(case):
             if not used:
                 obs["v2_configs_without_main"] = 1
             violations, flows, jumpish, unseen = _judge_v2_state(st, evals, obs)
+            violations += _recompile_v2(cfg.flows, cfg, obs)
             obs["shipped_v2_configs"] = 1
             reached = flows > 0 and evals > 0 and not unseen
             if flows == 0:
@@ -1039,6 +1054,7 @@ def _run_gen2(case):
         return dict(base, verdict="inconclusive", reason="loader-reject", detail="init %s: %s" % (type(e).__name__, str(e)[:300]),
                     observed=obs, nontrivial=False)
     violations, nflows, jumpish, unseen = _judge_v2_state(st, evals, obs)
+    violations += _recompile_v2(flows, None, obs)
     for k in ("when", "when_else", "when_multi", "while", "if", "brk", "groups", "scoped_await"):
         obs["gen2_stmt_" + k] = g.facts[k]
     # ---- dynamic confirmation
